@@ -29,8 +29,6 @@ STD_MODIFIES = {
     "SYSTEM_CLOCK": ([0, 1, 2], {"count", "count_rate", "count_max"}),
     "EVENT_QUERY": ([1, 2], {"count", "stat"}),
 }
-# ALLOCATE(obj, ..., MOLD=/SOURCE=) : these two are only read
-_ALLOC_READ_KW = {"mold", "source"}
 
 
 def sig_indices(node):
